@@ -269,6 +269,7 @@ func H14Cells() {
 					vndReach("h14:compared")
 					wc := tb.Assumption.Compare(base.Sample, cell.Sample)
 					vndAssert(cell.Comparison.P == wc.P && cell.Comparison.N1 == wc.N1 && cell.Comparison.N2 == wc.N2 && cell.Comparison.Alpha == wc.Alpha, "cell-comparison-is-against-the-first-columns-cell-of-its-row")
+					vndAssert(cell.Comparison.N1 == len(base.Sample.Values) && cell.Comparison.N2 == len(cell.Sample.Values), "comparison-reports-the-sizes-of-the-two-cells")
 				} else {
 					vndAssert(cell.Baseline == nil, "no-baseline-no-comparison")
 				}
